@@ -126,6 +126,8 @@ class Sched:
         self.note_for(self.cur(), 'mark', name, (self.vnow, value))
 
     def note_for(self, t, kind, name=None, value=None):
+        if self.aborting:
+            return          # the tear-down unwinds the threads through their `finally` blocks: not part of the run
         self.log.append((self.step, t.label if t is not None else '-', kind, name, value))
 
     def label_for(self, kind):
